@@ -192,7 +192,7 @@ func (this *Allocator) watchedPartitions() []*partition {
 
 func (this *Allocator) addNodeToPartitions(nodeId uint64) {
 	for _, partition := range this.watchedPartitions() {
-		if this.canModifyPartition(partition) && partition.isUnderReplicated() {
+		if this.canModifyPartition(partition) && partition.isUnderReplicated() && !partition.isOnNode(nodeId) {
 			partition.proposeAddNode(this.ctx, nodeId)
 		}
 	}
